@@ -226,6 +226,29 @@ def history_strategy(tier, interrupts=False):
                      kinds, cfg, st.lists(call, min_size=1, max_size=12), pieces, st.sampled_from([None, None, [False, True]]), st.booleans())
 
 
+def soak_cases(tier, seed):
+    """one object used for a long time: a thousand and more calls over the whole operation library on one client, every few of
+    them hit by a fault, clock advances in between - each call still consumes its own replies only"""
+    lib = op_library()
+    n = 1200 if tier == "quick" else 10000
+    faults = [{"kind": "recv", "nth": 0, "what": "reset"}, {"kind": "recv", "nth": 0, "what": "timeout"}, {"reply": 0, "tamper": "garbage"}, {"reply": 0, "tamper": "error"},
+              {"kind": "sendall", "nth": 0, "what": "pipe", "delivered": "none"}, {"reply": 0, "tamper": "trunc", "at": 2, "then": "eof"}, {"kind": "connect", "nth": 0, "what": "refused"}]
+    for ki, (kind, ns_) in enumerate((("client", 1), ("pooled", 1), ("hash", 2), ("hash-pooled", 2), ("aws", 1))):
+        for ie in (False, True):
+            x = (seed * 3571 + ki * 13 + ie + 1) & 0x7FFFFFFF
+            calls = []
+            for i in range(n):
+                x = (x * 1103515245 + 12345) & 0x7FFFFFFF
+                c = {"op": lib[(x >> 12) % len(lib)]}
+                if (x >> 3) % 9 == 0:
+                    c["faults"] = [faults[(x >> 7) % len(faults)]]
+                if (x >> 5) % 17 == 0:
+                    c["advance"] = (0.5, 1.5, 61)[(x >> 20) % 3]
+                calls.append(c)
+            yield {"kind": kind, "nservers": ns_, "cfg": {"default_noreply": bool(ki % 2), "ignore_exc": ie, "max_pool_size": 2, "retry_attempts": ki % 3},
+                   "calls": calls, "pieces": [None, [3], [1, 4096]][ki % 3], "coalesce": bool(ki % 2)}
+
+
 def nested_cases(tier, seed):
     """a call made on the same pooled client from inside another call (by the deserializer that decodes the outer reply, by
     the serializer before the outer command is sent): see props/c09.py for the harness"""
@@ -244,6 +267,7 @@ def check_nested(case):
 
 PARTS = [
     Part("calls-nested-in-calls", "enum", check_nested, cases=nested_cases, exhaustive=True),
+    Part("long-lives", "enum", check, cases=soak_cases, shards={"quick": 10, "thorough": 10}),
     Part("single-fault-sweep", "enum", check, cases=sweep_cases, exhaustive=True),
     Part("rejected-batches", "enum", check, cases=rejected_batch_cases, exhaustive=True),
     Part("deserialiser-failures", "enum", check_serde_failure, cases=serde_failure_cases, exhaustive=True),
